@@ -1178,7 +1178,10 @@ func (e *nodeEngine) decide(ctxCancelled bool, local, inject string, o *Out) str
 		case x.err == nil:
 			return "accepted"
 		case errors.Is(x.err, context.Canceled):
-			if strings.HasPrefix(x.err.Error(), "connect:") {
+			// the caller's context error comes back as it is; the error of a reconnect that
+			// was cancelled (closeCtx) comes back wrapped - told apart by the wrapping, not by
+			// the wording of the wrapper
+			if x.err != context.Canceled {
 				return "connect-err"
 			}
 			return "ctx-err"
@@ -1346,7 +1349,7 @@ func (e *nodeEngine) closeDuringReconnect(local, when string, o *Out) string {
 		switch {
 		case errors.Is(err, client.ErrClosed):
 			out = "closed"
-		case err != nil && strings.HasPrefix(err.Error(), "connect:"):
+		case err != nil && errors.Unwrap(err) != nil:
 			out = "connect-err"
 		default:
 			out = "error"
